@@ -68,7 +68,7 @@ int main(int argc, char **argv) {
     std::string bad = good; bad[bad.size() - 3] = bad[bad.size() - 3] == 'A' ? 'B' : 'A'; PRETOK_BAD.push_back(bad);
     PRETOK_EXPIRED.push_back(ref_token(ks, kds[i].alg, h, "{\"sub\":\"t\",\"exp\":1600000000}")); }
   Stats &st = stats();
-  int rounds = a.thorough() ? 120 : 5; if (a.kv.count("rounds")) rounds = atoi(a.kv["rounds"].c_str());
+  int rounds = a.thorough() ? 400 : 5; if (a.kv.count("rounds")) rounds = atoi(a.kv["rounds"].c_str());
   int opsper = a.thorough() ? 40 : 24;
   static const int TC[] = {2, 4, 8, 16};
   for (int round = 0; round < rounds && st.violations.empty(); round++) {
